@@ -1,0 +1,26 @@
+//go:build verif
+
+package co
+
+// Contracts for the goblvc verifier (see /verif/DESIGN.md). Comments only.
+//
+// C13 (Colombia, NIT): eight or nine digits and a check digit. Counting from the right, the
+// digits are weighted 3 7 13 17 19 23 29 37 41 ...; with r the weighted sum modulo 11 the check
+// digit is r when r < 2 and 11 - r otherwise.
+//@ pin nitMultipliers []int{3, 7, 13, 17, 19, 23, 29, 37, 41, 43, 47, 53, 59, 67, 71}
+//@ global len(nitMultipliers) == 15 && (forall j int :: 0 <= j && j < 15 ==> nitMultipliers[j] == coM(j))
+//@ spec coM(j int) int = ite(j == 0, 3, ite(j == 1, 7, ite(j == 2, 13, ite(j == 3, 17, ite(j == 4, 19, ite(j == 5, 23, ite(j == 6, 29, ite(j == 7, 37, ite(j == 8, 41, ite(j == 9, 43, ite(j == 10, 47, ite(j == 11, 53, ite(j == 12, 59, ite(j == 13, 67, 71))))))))))))))
+//@ rec coSum(c string, l int, k int) int = ite(k <= 0, 0, coSum(c, l, k - 1) + (s_byte(c, k - 1) - 48) * coM(l - k))
+//@ spec coCheck(c string, l int) int = ite(coSum(c, l, l) % 11 >= 2, 11 - coSum(c, l, l) % 11, coSum(c, l, l) % 11)
+//
+//@ func validateDigits(code, check) (err)
+//@   requires (len(code) == 8 || len(code) == 9) && digitsIn(code, 0, len(code)) && len(check) == 1 && digitsIn(check, 0, 1)
+//@   ensures [iff] err == nil <==> s_byte(check, 0) - 48 == coCheck(code, len(code))
+//@   loop 1 invariant sum == coSum(code, len(code), $pos) && sum >= 0 && sum <= 639 * $pos
+//
+//@ func validateTaxCode(value) (err)
+//@   let code = unboxed(value, cbc.Code)
+//@   let l = len(code)
+//@   ensures [iff] typeis(value, cbc.Code) && code != "" ==> (err == nil <==> (l == 9 || l == 10) && digitsIn(code, 0, l) && s_byte(code, l - 1) - 48 == coCheck(s_substr(code, 0, l - 1), l - 1))
+//@   ensures [skip] !typeis(value, cbc.Code) || code == "" ==> err == nil
+//@   loop 1 invariant digitsIn(code, 0, $pos)
